@@ -14,12 +14,18 @@ CONSTANTS Shapes,            \* set of <<h, w, hint>> (as records) to start from
 VARIABLES v_phase, v_hist, v_left
 vars == <<v_h, v_w, v_rows, v_undef, v_dense, v_indexed, v_stale, v_phase, v_hist, v_left>>
 
-TinyShapes == {[h |-> 3, w |-> 2, hint |-> 1], [h |-> 2, w |-> 2, hint |-> 1], [h |-> 3, w |-> 3, hint |-> 2]}
+TinyShapes == {[h |-> 3, w |-> 2, hint |-> 1], [h |-> 2, w |-> 2, hint |-> 1], [h |-> 3, w |-> 3, hint |-> 2],
+               [h |-> 2, w |-> 2, hint |-> 0]}      \* no dense tail at all: the highest key of the column index is a column
 \* widths around the 64-bit word boundaries; tails that start below a word boundary and are grown across it by freezing
 SimShapes == {[h |-> 5, w |-> 1, hint |-> 1], [h |-> 9, w |-> 5, hint |-> 1], [h |-> 70, w |-> 63, hint |-> 2], [h |-> 64, w |-> 64, hint |-> 1],
               [h |-> 80, w |-> 65, hint |-> 2], [h |-> 140, w |-> 127, hint |-> 63], [h |-> 130, w |-> 128, hint |-> 64],
               [h |-> 150, w |-> 129, hint |-> 62], [h |-> 140, w |-> 130, hint |-> 1], [h |-> 210, w |-> 200, hint |-> 127],
-              [h |-> 260, w |-> 200, hint |-> 64], [h |-> 200, w |-> 190, hint |-> 126], [h |-> 100, w |-> 100, hint |-> 1]}
+              [h |-> 260, w |-> 200, hint |-> 64], [h |-> 200, w |-> 190, hint |-> 126], [h |-> 100, w |-> 100, hint |-> 1],
+              \* no dense tail (hint 0), square and one taller
+              [h |-> 8, w |-> 8, hint |-> 0], [h |-> 9, w |-> 8, hint |-> 0], [h |-> 64, w |-> 64, hint |-> 0], [h |-> 65, w |-> 65, hint |-> 0],
+              [h |-> 130, w |-> 130, hint |-> 0],
+              \* more than five words per row
+              [h |-> 360, w |-> 352, hint |-> 1]}
 Rnd(S) == RandomElement(S)
 Log(op) == v_hist' = Append(v_hist, op)
 SetSeq(S) == LET RECURSIVE f(_) f(T) == IF T = {} THEN <<>> ELSE LET x == CHOOSE y \in T : \A z \in T : y <= z IN <<x>> \o f(T \ {x}) IN f(S)
@@ -76,7 +82,10 @@ StepAddSingle ==
             AddRows(d, s, start) /\ Log([op |-> "addrows", d |-> d, s |-> s, start |-> start])
 StepFreeze == EnabledFreeze(SparseW - 1) /\ Freeze /\ Log([op |-> "freeze", c |-> SparseW - 1])
 StepRange ==
-  /\ \E i \in Pick(Rows), a \in Pick(0..SparseW) : \E b \in Pick(a..SparseW) :
+  \* half of the queries span from column 0 and/or up to the end of the sparse part (as the solver's do)
+  /\ \E i \in Pick(Rows), ka \in Pick(0..1), kb \in Pick(0..1), a0 \in Pick(0..SparseW) : \E b0 \in Pick(a0..SparseW) :
+     LET a == IF ka = 0 THEN 0 ELSE a0
+         b == IF kb = 0 THEN SparseW ELSE b0 IN
      /\ EnabledRowRange(i, a, b)
      /\ Log([op |-> "range", r |-> i, a |-> a, b |-> b, count |-> CountOnes(i, a, b), ones |-> SetSeq(RowOnes(i, a, b))])
   /\ UNCHANGED mvars
